@@ -437,7 +437,8 @@ def check_frame(case):
         exp_cl = cl[:at] + [canon(x) for x in new_labels] + cl[at:]
         exp_cols = exp_cols[:at] + new_cols + exp_cols[at:]
         exp_dt = exp_dt[:at] + [None] * k + exp_dt[at:]
-        key = clr[p] if route != 'iloc' else sf.ILoc[p]
+        # positional keys also in their negative form (counted from the end)
+        key = clr[p] if route != 'iloc' else (sf.ILoc[p] if case['keep'] % 2 else sf.ILoc[p - m])
         r = lib(lambda: (f.insert_after if case['after'] else f.insert_before)(key, val, **fill_kw))
         addressed_cells = k * n
         untouched = set()
@@ -511,9 +512,9 @@ def frame_value_cases(draw):
 
 @st.composite
 def series_cases(draw):
-    rec = draw(gen.series_recipe(min_size=1, max_size=7, kinds=KINDS, index_kinds=('auto', 'int', 'str', 'date', 'ih')))
+    iface = draw(st.sampled_from(['assign', 'insert', 'assign', 'drop', 'mask', 'astype', 'relabel', 'rename']))  # decisive choice first
+    rec = draw(gen.series_recipe(min_size=1, max_size=7, kinds=KINDS, index_kinds=('auto', 'int', 'str', 'date', 'ih') if iface != 'insert' else ('int', 'str')))
     n = len(rec['index']['labels'])
-    iface = draw(st.sampled_from(['assign', 'assign', 'drop', 'mask', 'astype', 'relabel', 'rename']))
     case = {'rec': rec, 'iface': iface, 'route': draw(st.sampled_from(['iloc', 'loc'])), 'k': draw(gen.iloc_key(n)),
             'vk': draw(st.sampled_from(['element', 'array', 'series', 'apply'])), 'el': draw(st.sampled_from(sorted(NEWVAL))),
             'vdt': draw(st.sampled_from(['int64', 'float64', '<U2', 'bool', 'object'])), 'keep': draw(st.integers(0, 2 ** 8)),
@@ -601,6 +602,24 @@ def check_series(case):
             d = {ilr[q]: 'm%d' % q for q in range(n) if (case['keep'] >> q) & 1}
             exp_il = [('m%d' % q) if (case['keep'] >> q) & 1 else il[q] for q in range(n)]
             r = lib(lambda: s.relabel(d))
+    elif iface == 'insert':
+        # a Series inserted before / after a label or a position (also in its negative form)
+        pos = (case['keep'] >> 2) % n
+        after = bool(case['keep'] & 1)
+        neg = bool(case['keep'] & 2)
+        strs = rec['index']['kind'] == 'str'
+        new_labels = ['__i0__', '__i1__'] if strs else [90001, 90002]
+        if any(eq(canon(x), canon(y)) for x in new_labels for y in il):
+            raise Discard('label collision')
+        ins = sf.Series(_arr(_vals(2, case['vdt'], 4), case['vdt']), index=new_labels)
+        ikey = ilr[pos] if route == 'loc' else sf.ILoc[pos - n if neg else pos]
+        at = pos + 1 if after else pos
+        exp_il = il[:at] + [canon(x) for x in new_labels] + il[at:]
+        exp_vals = vals[:at] + arr_list(ins.values) + vals[at:]
+        exp_dt = None
+        p = [pos]
+        r = lib(lambda: (s.insert_after if after else s.insert_before)(ikey, ins))
+        classes.append('insert:%s%s' % ('after' if after else 'before', ':negative' if (neg and route != 'loc') else ''))
     else:
         exp_name = case['name']
         r = lib(lambda: s.rename(case['name']))
